@@ -9,6 +9,7 @@ pub mod c19p;
 pub mod campaign;
 pub mod convert;
 pub mod crash;
+pub mod decode;
 pub mod driver;
 pub mod enumerate;
 pub mod env;
